@@ -73,7 +73,12 @@ def run(ctx, spec, units, violations, inconcl, meta):
         if not scen:
             continue
         cmd = ['python3-vt', os.path.join(MIRSYM, 'run.py'), mir, root, str(nmax)] + scen
-        rc, out, wall = run_cmd(cmd, timeout=group.get('timeout', 1800))
+        # solver cross-check: every obligation z3 discharged is exported as SMT-LIB 2 and decided again by cvc5 and by z3 4.8.12
+        # (quick: an evenly spaced subset of at most 80 distinct queries per scenario; thorough: all of them)
+        xenv = dict(base_env(), MIRSYM_XCHECK='1', MIRSYM_XCHECK_CAP='80' if tier == 'quick' else '0')
+        if os.environ.get('VERIF_NO_XCHECK'):
+            xenv.pop('MIRSYM_XCHECK')
+        rc, out, wall = run_cmd(cmd, timeout=group.get('timeout', 1800) + 600, env=xenv)
         mmeta['wall_s'] += wall
         got = {}
         for line in out.splitlines():
@@ -94,10 +99,22 @@ def run(ctx, spec, units, violations, inconcl, meta):
             mmeta['unwind_paths'] += d['unwind_paths']
             mmeta['summaries'] = sorted(set(mmeta['summaries']) | set(d['summaries']))
             mmeta['functions'] = sorted(set(mmeta['functions']) | set(d['functions']))
+            xc = d.get('xcheck')
+            if xc:
+                agg = mmeta.setdefault('solver_crosscheck', {'what': 'obligations discharged by z3 (python API) exported as SMT-LIB 2 and decided again; an answer other than unsat/unknown is a disagreement and makes the scenario inconclusive',
+                                                             'queries_exported': 0, 'distinct_rechecked': 0, 'disagreements': 0, 'solvers': {}})
+                agg['queries_exported'] += xc['exported']
+                agg['distinct_rechecked'] += xc['distinct_checked']
+                agg['disagreements'] += len(xc['disagreements'])
+                for sv, c in xc['solvers'].items():
+                    a = agg['solvers'].setdefault(sv, {'unsat': 0, 'sat': 0, 'unknown': 0, 'error': 0, 'no_answer': 0, 'wall_s': 0.0})
+                    for k in a:
+                        a[k] = round(a[k] + c.get(k, 0), 2)
             u = {'engine': 'M', 'name': 'M:' + sc, 'verdict': d['verdict'], 'obligations': d['obligations'], 'discharged': d['discharged'],
                  'bounds': d['bounds'],
                  'sample': {'scenario': sc, 'verdict': d['verdict'], 'bounds': d['bounds'], 'paths': d['paths'], 'unwind_paths': d['unwind_paths'],
                             'smt_queries': d['queries'], 'solver_s': d['solver_s'], 'obligations_discharged': d['samples'][:5],
+                            'rechecked_by_other_solvers': {sv: {k: c.get(k) for k in ('unsat', 'sat', 'unknown', 'error')} for sv, c in (d.get('xcheck') or {}).get('solvers', {}).items()},
                             'functions_interpreted': d['functions'][:8]}}
             units.append(u)
             if group.get('advisory'):
@@ -165,9 +182,9 @@ def z3_version():
     return '5.1 (python3-vt)'
 
 
-def run_cmd(cmd, timeout):
+def run_cmd(cmd, timeout, env=None):
     from util import run as urun
-    return urun(cmd, cwd=MIRSYM, timeout=timeout)
+    return urun(cmd, cwd=MIRSYM, timeout=timeout, env=env)
 
 
 def make_violation(prop, sc, f):
